@@ -699,6 +699,9 @@ def _c14():
     L.append(leg("buffers-seq6", "c15_nodes", (1, 2), {"only": "seq", "depth": 6}, flags=(), what="message conservation at the buffering nodes: all legal operation sequences of length 6 over {put, try_get, try_reserve, try_release, try_consume, attach an accepting successor} on buffer/queue/priority_queue/sequencer nodes from 0, 3, 4, 7, 8 buffered items (nothing lost or duplicated, a kept message is offered again, wait_for_all leaves nothing in transit)", weight=2.0))
     L.append(leg("buffers-seq7", "c15_nodes", (0, 1), {"only": "seq", "depth": 7, "prefills": "0.4"}, flags=(), what="same, length 7 from 0 and 4 buffered items (ring growth while an item is reserved)", tiers=("quick",)))
     L.append(leg("buffers-seq9", "c15_nodes", (1, 1), {"only": "seq", "depth": 9, "prefills": "0.4"}, flags=(), what="same, length 9", tiers=("thorough",), weight=3.0))
+    for k, b, what in [("cont2", (1, 2), "continue_node with two predecessors signalled from two threads"), ("mfn", (1, 2), "multifunction_node fed by two threads, routing to two ports"),
+                       ("bcast", (1, 2), "broadcast_node put from two threads into two successors"), ("inputn", (1, 2), "input_node in front of a rejecting serial node while another thread puts into that node")]:
+        L.append(leg("rt-" + k, "c14_rt", b, {"kind": k}, what="real scheduler: " + what))
     L.append(leg("rt-pull-asleep", "c14_rt", (1, 2), {"kind": "pull", "asleep": 1}, what="real scheduler: pull with the worker asleep at the start", weight=2.0))
     return L
 PROPS["C14"] = {
